@@ -1,6 +1,7 @@
 import Seccomp.Gen.Consts
 import Seccomp.Gen.Tables
 import Seccomp.Gen.GetInfo
+import Seccomp.Gen.Oracle
 import Seccomp.Model.Policy
 import Seccomp.Model.Lower
 import Seccomp.Model.Spec
@@ -333,6 +334,37 @@ theorem unsupported_arch_errors :
         getInfoDefaultErrors t.goarch) ∧
     ∀ t ∈ targets, (t.archKey = false ∨ t.archTable = false) → getInfoDefaultErrors t.goarch = true := by
   decide +kernel
+
+/-- the kernel's audit architecture of a Linux port, by GOARCH (hand-written: names of linux/audit.h) -/
+def auditMacroOfGoarch : List (String × String) := [
+  ("amd64", "AUDIT_ARCH_X86_64"), ("386", "AUDIT_ARCH_I386"), ("arm", "AUDIT_ARCH_ARM"), ("arm64", "AUDIT_ARCH_AARCH64"),
+  ("riscv64", "AUDIT_ARCH_RISCV64"), ("loong64", "AUDIT_ARCH_LOONGARCH64"), ("ppc64", "AUDIT_ARCH_PPC64"),
+  ("ppc64le", "AUDIT_ARCH_PPC64LE"), ("s390x", "AUDIT_ARCH_S390X"), ("mips", "AUDIT_ARCH_MIPS"), ("mipsle", "AUDIT_ARCH_MIPSEL"),
+  ("mips64", "AUDIT_ARCH_MIPS64"), ("mips64le", "AUDIT_ARCH_MIPSEL64")]
+
+/-- where `GetInfo("")` resolves on a target, the resolved row carries the kernel's audit identifier of
+    *that* port (as far as the list above names one and the C compiler evaluated linux/audit.h) -/
+def resolvesToOwnArch (g : String) : Bool :=
+  getInfoDefaultErrors g ||
+    match arches.lookup g, auditMacroOfGoarch.lookup g with
+    | some v, some m =>
+      (match archRows.find? (fun r => r.var == v), Oracle.auditArch.lookup m with
+       | some r, some k => r.id == k
+       | _, none => !Oracle.auditAvailable
+       | none, _ => false)
+    | some _, none => true     -- a port the list does not name: no statement
+    | none, _ => true
+
+/-- **A filter is only produced for the target's own architecture**: a GOARCH that resolves to the row
+    of another architecture (an alias such as riscv64 → aarch64, "same generic table") would compile
+    policies whose architecture test never matches on that kernel, instead of the unsupported-architecture
+    error the property demands for targets without tables of their own. -/
+theorem resolved_arch_is_the_targets_own : ∀ t ∈ targets, resolvesToOwnArch t.goarch = true := by
+  decide +kernel
+
+/-- non-vacuity: the four table ports are named by the list and the oracle knows their macros -/
+example : (["amd64", "386", "arm", "arm64"].all fun g =>
+    (auditMacroOfGoarch.lookup g).isSome && !getInfoDefaultErrors g) = true := by decide +kernel
 
 /-- conversely the four table architectures resolve on their targets, to the row of that name -/
 theorem supported_arch_resolves :
